@@ -124,7 +124,7 @@ def run(check):
             check.known(kid, {"position": pos, "rule": rule, "ident": s_, "typeshare": got, "serde": want})
     # --- repaired classes: their stored witnesses must give serde's name now; a difference means the defect has returned
     repaired = {
-        "unicode-case-mapping": ("e0753c7", [("variant", "lowercase", "É"), ("variant", "lowercase", "Éclair"),
+        "unicode-case-mapping": ("7d1c05f", [("variant", "lowercase", "É"), ("variant", "lowercase", "Éclair"),
                                              ("variant", "UPPERCASE", "MyÉnum"), ("field", "UPPERCASE", "éclair"),
                                              ("field", "UPPERCASE", "straße"), ("variant", "UPPERCASE", "ǅ")]),
     }
@@ -145,7 +145,7 @@ def run(check):
     check.extra["divergences_from_serde_outside_conventional_names"] = n_div
     check.exhaustive = True
     check.extra["exhaustive_scope"] = "strings of length <= %d over 6 class representatives" % maxlen
-    check.assumptions += ["Unicode case mapping (char::is_uppercase for the snake/kebab family; str::to_lowercase/uppercase are no longer used by rename_all_to_case since e0753c7) is a parameter of the model; its table for the alphabet is computed by Rust std on every run",
+    check.assumptions += ["Unicode case mapping (char::is_uppercase for the snake/kebab family; str::to_lowercase/uppercase are no longer used by rename_all_to_case since 7d1c05f) is a parameter of the model; its table for the alphabet is computed by Rust std on every run",
                           "serde's algorithm is the vendored serde_derive 1.0.214 internals/case.rs, compiled unchanged into the runner"]
 
 
